@@ -31,6 +31,8 @@ type procInfo struct {
 	dataFields map[*types.Var]bool // fields giving access to stored data (SQL handle, trees)
 	halted     *types.Var
 	touches    map[*ssa.Function]bool
+	// guardedEntry: exported methods of the façade (each decided by its own C14-guard obligation)
+	guardedEntry map[*ssa.Function]bool
 }
 
 func isDataFieldType(t types.Type) bool {
@@ -164,6 +166,12 @@ func (pi *procInfo) isAccess(i ssa.Instruction) bool {
 	}
 	if cc := core.AsCall(i); cc != nil {
 		if callee := cc.StaticCallee(); callee != nil && pi.touches[callee] {
+			// an exported method of the façade is an entry point with a guard obligation of its own: going through it is
+			// not an unguarded access (it answers ErrInconsistentState while halted, which the caller hands on or not —
+			// either way no data is served)
+			if pi.guardedEntry[callee] {
+				return false
+			}
 			return true
 		}
 	}
@@ -248,6 +256,14 @@ func c14Guard(c *core.Ctx) {
 			continue
 		}
 		ms := types.NewMethodSet(types.NewPointer(n))
+		pi.guardedEntry = map[*ssa.Function]bool{}
+		for i := 0; i < ms.Len(); i++ {
+			if sel := ms.At(i); sel.Obj().Exported() && len(sel.Index()) == 1 {
+				if fn := c.Prog.FuncValue(sel.Obj().(*types.Func)); fn != nil && fn.Blocks != nil {
+					pi.guardedEntry[fn] = true
+				}
+			}
+		}
 		var names []string
 		byName := map[string]*ssa.Function{}
 		for i := 0; i < ms.Len(); i++ {
